@@ -365,14 +365,13 @@ var twin = gen.Twin{New: func() func() bool {
 const cssTail = "x)}\"*/a{b:c}"
 
 func lexAll(src []byte) []tok {
-	in, whole := gen.Embedded(src, cssTail)
-	input := parse.NewInputBytes(in)
+	input, how, check := gen.Supply(src, cssTail)
 	l := css.NewLexer(input)
 	var out []tok
 	defer func() {
 		input.Restore()
-		if ok, rest := gen.CheckEmbedded(in, whole, cssTail, true); !ok || !bytes.Equal(in, src) {
-			panic(fmt.Sprintf("lexing %q changed the caller's buffer: %q + %q", src, in, rest))
+		if ok, rest := check(true); !ok {
+			panic(fmt.Sprintf("lexing %q (%s) changed the caller's buffer: %q", src, how, rest))
 		}
 	}()
 	for i := 0; i <= len(src)+1; i++ {
